@@ -38,6 +38,12 @@ CHECKS = {
  "C14": dict(tech="TLC static obligations: RUN statements of emitted programs and of the library against PARAM/TYPE declarations parsed by TLC from the library text",
    text="Trace_C14.tla reads the signatures (parameter count, class per position, record types) from ecb.b09 of the working tree and checks every RUN of every emitted program (all 71 device forms x operand shapes with the full prologue, all convertible functions in 28 statement contexts, INPUT wrappers, empty-DATA filter, PRINT/HPRINT of numbers, HBUFF/JOYSTK prologue) and all calls between the 55 library procedures: defined, arity, string/numeric/record class, result position is a variable, TYPE declarations identical field by field.",
    note="Trusted: B09 grammar and a simple static class inference (suffix, declarations, result class of built-ins). BYTE/INTEGER/REAL are one class (the property says numeric).", ref="5 C14"),
+ "C11": dict(tech="TLC walks the option hypercube (Toggle action) over recorded real outputs and checks the documented delta on every edge; second cube for the command-line flags",
+   text="For each program (fixed ones exercising every option plus GenProg.tla random programs over all statement kinds) the real convert() outputs under all 32 option vectors are recorded; Trace_C11.tla flips one option at a time from every vector (160 edges per program) and checks LabelsOnlyRemoved, OnlyInitLinesRemoved, OnlyStartFlagDiffers, OnlyHeaderAndBundleRemoved, OnlyStringDeclsDiffer on token lines. For a subset the decb-to-b09 entry point is run with all 32 flag vectors on real files: output must equal convert() under FlagMap(flags), procedure named after the file, CR line ends only.",
+   note="Trusted: lexer shim, the delta relations as my reading of the README. Blank lines are not significant.", ref="5 C11"),
+ "C12": dict(tech="TLC-enumerated call histories replayed in forked fresh interpreters under many hash seeds; TLC validates every recorded trace against the stateless specification",
+   text="Trace_C12.tla specifies convert() and the decoders as stateless functions and enumerates histories of calls over a pool of 8 conversions (several implicit arrays, string sizes, dependencies, handlers) and 8 decoder invocations; every history is replayed in a forked freshly imported interpreter under each PYTHONHASHSEED; Validate_C12.tla accepts a trace iff each step returns the canonical result of its call.",
+   note="The specification is trivial by design (that is the property); the value is in the history enumeration and the seed dimension. Results are compared by SHA-1.", ref="5 C12"),
 }
 NA_REASON = "check not built yet in this round (work in progress; see DESIGN.md Appendix D)"
 m = {"version": 1, "setup_cmd": "cd /verif && ./setup.sh",
